@@ -71,6 +71,8 @@ pub const DECLS: &[(&str, &str)] = &[
   ("const-enum", "export const enum E@N { A = 1 }\n"),
   ("namespace", "export namespace N@N { export type X = @R; export const v: number = 1; export function nf(a: @R): void {} const hidden = 1; }\n"),
   ("namespace-nested", "export namespace N@N { export namespace Inner { export type Y = @R; } }\n"),
+  ("namespace-dotted", "export namespace N@N.Mid.Leaf { export type Y = @R; export const dv: number = 1; }\n"),
+  ("namespace-dotted-4", "export namespace N@N.P.Q.R { export interface DI { v: @R } }\n"),
   ("expando", "export function e@N(): void {}\ne@N.prop = 1;\ne@N.other = \"s\";\n"),
   ("default-class", "export default class Def@N { x: @R = null as any; }\n"),
   ("default-function", "export default function (a: @R): @R { return a; }\n"),
